@@ -3,7 +3,7 @@ CONSTANTS
   N = 3
   Gated = FALSE
   Locked = TRUE
-  KindSet = {"L", "P", "E", "R"}
+  KindSet = {"L", "P", "E", "R", "F"}
 INVARIANTS
   Serialisable
   MutualExclusion
